@@ -1,7 +1,7 @@
 //@@ property: G1
 //@@ crate: db
 //@@ mount: pocket-db/src/lib.rs
-//@@ also: db_lmdb_helper.rs@pocket-db/src/lmdb/mod.rs
+//@@ also: db_lmdb_helper.rs@pocket-db/src/lmdb/mod.rs, es_helper.rs@pocket-db/src/event_store.rs
 use crate::*;
 include!("common_db.rs");
 include!("img.rs");
@@ -17,6 +17,7 @@ include!("texts.rs");
 #[kani::stub(core::panic::Location::caller, stub_caller)]
 #[kani::stub(std::hash::RandomState::new, stub_random_state)]
 #[kani::stub(<std::io::Error as std::fmt::Display>::fmt, stub_io_error_fmt)]
+#[kani::stub(<std::io::Error as std::string::ToString>::to_string, stub_io_to_string)]
 #[kani::stub(std::fs::File::set_len, stub_set_len)]
 #[kani::stub(std::fs::OpenOptions::open, stub_open)]
 #[kani::stub(std::fs::File::metadata, stub_metadata)]
@@ -51,6 +52,7 @@ fn g1_store_concrete() {
 #[kani::stub(core::panic::Location::caller, stub_caller)]
 #[kani::stub(std::hash::RandomState::new, stub_random_state)]
 #[kani::stub(<std::io::Error as std::fmt::Display>::fmt, stub_io_error_fmt)]
+#[kani::stub(<std::io::Error as std::string::ToString>::to_string, stub_io_to_string)]
 #[kani::stub(std::fs::File::set_len, stub_set_len)]
 #[kani::stub(std::fs::OpenOptions::open, stub_open)]
 #[kani::stub(std::fs::File::metadata, stub_metadata)]
@@ -66,6 +68,7 @@ fn g1_evstore_only() {
 #[kani::stub(core::panic::Location::caller, stub_caller)]
 #[kani::stub(std::hash::RandomState::new, stub_random_state)]
 #[kani::stub(<std::io::Error as std::fmt::Display>::fmt, stub_io_error_fmt)]
+#[kani::stub(<std::io::Error as std::string::ToString>::to_string, stub_io_to_string)]
 #[kani::stub(std::fs::File::set_len, stub_set_len)]
 #[kani::stub(std::fs::OpenOptions::open, stub_open)]
 #[kani::stub(std::fs::File::metadata, stub_metadata)]
@@ -81,6 +84,7 @@ fn g1_lmdb_only() {
 #[kani::stub(core::panic::Location::caller, stub_caller)]
 #[kani::stub(std::hash::RandomState::new, stub_random_state)]
 #[kani::stub(<std::io::Error as std::fmt::Display>::fmt, stub_io_error_fmt)]
+#[kani::stub(<std::io::Error as std::string::ToString>::to_string, stub_io_to_string)]
 #[kani::stub(std::fs::File::set_len, stub_set_len)]
 #[kani::stub(std::fs::OpenOptions::open, stub_open)]
 #[kani::stub(std::fs::File::metadata, stub_metadata)]
@@ -187,7 +191,7 @@ fn g1_l3() {
 }
 
 fn verif_store() -> Store {
-    let events = ok!(crate::event_store::EventStore::new("/s/event.map"));
+    let events = crate::event_store::verif_es_helper::fresh_event_store();
     let indexes = crate::lmdb::verif_db_lmdb_helper::verif_lmdb();
     Store { events, indexes, dir: std::path::PathBuf::new(), extra_table_names: Vec::new() }
 }
@@ -197,12 +201,14 @@ fn verif_store() -> Store {
 //@ timeout: 900
 //@ mem: 24
 //@ covers: none
-//@ unwindset: put_bytes=70; heed::bytes_=260; heed::Table=6; memcmp.0=40; repeat::Repeat=190; Repeat.*try_fold=190
+//@ unwindset: put_bytes=70; heed::bytes_=260; heed::Table=6; memcmp.0=40; repeat::Repeat=190; Repeat.*try_fold=190; mmap_append=200
+//@ cbmc: --max-field-sensitivity-array-size 800
 #[kani::proof]
-#[kani::unwind(16)]
+#[kani::unwind(14)]
 #[kani::stub(core::panic::Location::caller, stub_caller)]
 #[kani::stub(std::hash::RandomState::new, stub_random_state)]
 #[kani::stub(<std::io::Error as std::fmt::Display>::fmt, stub_io_error_fmt)]
+#[kani::stub(<std::io::Error as std::string::ToString>::to_string, stub_io_to_string)]
 #[kani::stub(std::fs::File::set_len, stub_set_len)]
 #[kani::stub(std::fs::OpenOptions::open, stub_open)]
 #[kani::stub(std::fs::File::metadata, stub_metadata)]
@@ -214,10 +220,11 @@ fn g1_s1() {
     core::mem::forget(store);
 }
 #[kani::proof]
-#[kani::unwind(16)]
+#[kani::unwind(14)]
 #[kani::stub(core::panic::Location::caller, stub_caller)]
 #[kani::stub(std::hash::RandomState::new, stub_random_state)]
 #[kani::stub(<std::io::Error as std::fmt::Display>::fmt, stub_io_error_fmt)]
+#[kani::stub(<std::io::Error as std::string::ToString>::to_string, stub_io_to_string)]
 #[kani::stub(std::fs::File::set_len, stub_set_len)]
 #[kani::stub(std::fs::OpenOptions::open, stub_open)]
 #[kani::stub(std::fs::File::metadata, stub_metadata)]
@@ -226,7 +233,8 @@ fn g1_s2() {
     let store = verif_store();
     let mut buf = [0u8; 200];
     let n = enc_event_img(1, 1000, &ID_BIN, &PK_BIN, &SIG_BIN, &[&[1, 2]], b"eab", b"hi", &mut buf);
-    let ev = ok!(unsafe { Event::delineate(&buf[..n]) });
+    let sl: &[u8] = &buf[..n];
+    let ev: &Event = unsafe { &*(sl as *const [u8] as *const Event) };
     let off = ok!(store.store_event(ev));
     let got = some!(ok!(store.get_event_by_id(Id::from_bytes(ID_BIN))));
     assert!(got.as_bytes().len() == n);
